@@ -37,7 +37,7 @@ CHECKS = {
         "++ 00000000, the blocked file is well-blocked with that stream as payload, and reading returns exactly the records "
         "(Props/C03.lean). Tied to /repo by differential execution on all 6000 single-record lengths x both formats, "
         "boundary multi-record files, special contents and random lists through class API, write_many/with, and the "
-        "list/bytes convenience functions, with an independent layout oracle. In addition a SOURCE TIE: harness/pytrans.py translates the current Python text of Block1014.write / finalise, VbsWriter.write / write_many / close / __exit__ and VbsReader.__next__ (methods, self made explicit) into Lean (Gen/Src.lean) on every run and lean/Cardutil/SrcTie/Block.lean, Writer.lean, Reader.lean, RoundTrip.lean prove, for all inputs, that the translation equals the model and restate the property for the translated writer AND reader (C03_source_roundtrip, C03_source_write_many_roundtrip: write the records one by one or through write_many, close, iterate the reader — the records come back, then end of data); when the source changes so that this no longer checks, the check runs its thorough generators before answering (the correspondence remains the deciding tie).",
+        "list/bytes convenience functions, with an independent layout oracle. In addition a SOURCE TIE: harness/pytrans.py translates the current Python text of Block1014.write / finalise, VbsWriter.write / write_many / close / __exit__ and VbsReader.__next__ (methods, self made explicit) into Lean (Gen/Src.lean) on every run and lean/Cardutil/SrcTie/Block.lean, Writer.lean, Reader.lean, RoundTrip.lean prove, for all inputs, that the translation equals the model and restate the property for the translated writer AND reader (C03_source_roundtrip, C03_source_write_many_roundtrip: write the records one by one or through write_many, close, iterate the reader — the records come back, then end of data); the BLOCKED format as well: Block1014.write / finalise / seek translated over a file (data + position), VbsWriter.write / close translated with out_file being such a Block1014 object, VbsReader.__next__ translated with vbs_data being an Unblock1014 object, and lean/Cardutil/SrcTie/Blocked.lean proves them equal to the model's blocked writer and reader and C03_source_roundtrip_blocked for the translated code at both ends; when the source changes so that this no longer checks, the check runs its thorough generators before answering (the correspondence remains the deciding tie).",
         "Trusted: Lean kernel; standard axioms; hand-written models validated by the correspondence; struct.pack('>I') as 4 "
         "base-256 digits (< 2^32); MAX_VBS_RECORD_LENGTH re-translated from /repo each run.",
         "DESIGN.md §8 C03"),
@@ -108,7 +108,8 @@ CHECKS = {
         "external function, then the base class's write through super()), IpmWriter.write_many, VbsWriter.write / close and "
         "VbsReader.__next__ / IpmReader.__next__ into Lean (Gen/Src.lean) on every run and lean/Cardutil/SrcTie/IpmRoundTrip.lean "
         "proves C06_source_roundtrip for the translated writer AND reader, for any encoder and decoder that are inverse on the "
-        "messages written; when the source changes so that this no longer checks, the check runs its thorough generators "
+        "messages written, and lean/Cardutil/SrcTie/IpmBlocked.lean the same over the BLOCKED format (IpmWriter.write and "
+        "IpmReader.__next__ translated over the blocked base classes: C06_source_roundtrip_blocked); when the source changes so that this no longer checks, the check runs its thorough generators "
         "(time-boxed) before answering (the correspondence remains the deciding tie).",
         "Trusted: as C01/C03; instance isolation is established by the correspondence (Python object model), not by a theorem.",
         "DESIGN.md §8 C06"),
